@@ -52,7 +52,7 @@ OWNERS = {
             'config.find_unknown_references_hook', 'config._iterate_flattened_values'],
     'C16': ['config.parse_config', 'config._parse_scope', 'config.bind_parameter', 'utils.', 'config_parser.ConfigParser.parse_statement',
             'config_parser.ConfigParser._block_scope', 'config_parser.ConfigParser._parse_binding_block'],
-    'C17': ['utils.', 'config._make_gin_wrapper'],
+    'C17': ['utils.', 'config._make_gin_wrapper', 'config._get_all_positional_parameter_names'],
     'C18': ['config._make_gin_wrapper', 'config.operative_config_str', 'config._config_str', 'config.clear_config', 'config.singleton', 'config.singleton_value'],
     'C19': ['config.ParseContext', 'config._parse_scope', 'config.ImportManager', 'config_parser.ImportStatement', 'config._GinBuiltins'],
     'C20': ['config.clear_config', 'config.constant', 'selector_map.SelectorMap.clear', 'selector_map.SelectorMap.copy', 'selector_map.SelectorMap.__setitem__'],
@@ -279,6 +279,56 @@ def substring_membership(ctx, pid, funcs):
                    % u(c), f.loc(c), instance='%s:%s' % (f.name, u(c)[:40]))
 
 
+def argspec_none(ctx, pid, funcs):
+  """inspect.getfullargspec gives `defaults` / `kwonlydefaults` = None when there are none (trusted fact T14): a membership test,
+  iteration, len() or subscript on one of them needs a truthiness / None guard on every path (or an `or {}` / `or ()` default)."""
+  from ..lib import std_facts
+  for f in funcs:
+    uses = [a for a in walk_local(f.node) if isinstance(a, ast.Attribute) and a.attr in ('kwonlydefaults', 'defaults')
+            and isinstance(a.ctx, ast.Load) and not (isinstance(a.value, ast.Name) and a.value.id in ('self', 'cls'))]
+    if not uses:
+      continue
+    ctx.assume('T14')
+    g, facts = std_facts(ctx.prog, f)
+    for a in uses:
+      p_ = getattr(a, 'parent', None)
+      # harmless positions: the guard itself, `x or {}`, comparison with None, passing it on
+      if isinstance(p_, (ast.If, ast.IfExp, ast.While)) and p_.test is a:
+        continue
+      if isinstance(p_, ast.BoolOp) or (isinstance(p_, ast.UnaryOp) and isinstance(p_.op, ast.Not)):
+        continue
+      if isinstance(p_, ast.Compare) and p_.left is a and all(isinstance(o, (ast.Is, ast.IsNot, ast.Eq, ast.NotEq)) for o in p_.ops):
+        continue
+      risky = (isinstance(p_, ast.Compare) and a in p_.comparators and any(isinstance(o, (ast.In, ast.NotIn)) for o in p_.ops)) or \
+          (isinstance(p_, (ast.For, ast.comprehension)) and p_.iter is a) or \
+          (isinstance(p_, ast.Subscript) and p_.value is a) or \
+          (isinstance(p_, ast.Call) and a in p_.args and u(p_.func) in ('len', 'zip', 'dict', 'list', 'tuple', 'set', 'reversed', 'enumerate', 'sorted')) or \
+          (isinstance(p_, ast.Attribute) and p_.value is a)
+      if not risky:
+        continue
+      st = enclosing_stmt(a)
+      fs = set()
+      for n in g.live_nodes():
+        if n.ast is st or (n.ast is not None and n.kind in ('test', 'for') and any(x is a for x in ast.walk(n.ast if n.kind == 'test' else n.ast.iter))):
+          fs = set(facts[n.id])
+          break
+      txt = u(a)
+      guarded = ('c', txt, True) in fs or ('c', '%s is None' % txt, False) in fs or \
+          any(f_[0] == 'c' and f_[2] is True and f_[1].startswith(txt + ' and ') for f_ in fs)
+      # the guard may sit in the same expression: `spec.defaults and k in spec.defaults`, a comprehension `if`
+      anc = p_
+      while anc is not None and not isinstance(anc, ast.stmt):
+        if isinstance(anc, ast.BoolOp) and isinstance(anc.op, ast.And) and any(u(v) == txt for v in anc.values):
+          guarded = True
+        if isinstance(anc, ast.IfExp) and u(anc.test) == txt:
+          guarded = True
+        anc = getattr(anc, 'parent', None)
+      ctx.check(guarded, '%s.argspec-none' % pid, construct(f),
+                '`%s` is used only where it is known not to be None' % txt,
+                '`%s` is None when the signature has no such defaults (getfullargspec), and `%s` then raises TypeError: in an error path this replaces '
+                'the exception being reported' % (txt, u(p_)[:80]), f.loc(a), instance='%s:%s' % (f.name, u(p_)[:40]))
+
+
 def run_lints(ctx, pid):
   funcs, classes = owned(ctx, pid)
   ctx.expect_at_least('functions in the data path of %s' % pid, len(funcs), 1)
@@ -288,4 +338,5 @@ def run_lints(ctx, pid):
   shared_class_state(ctx, pid, classes)
   mutate_while_iterating(ctx, pid, funcs)
   substring_membership(ctx, pid, funcs)
+  argspec_none(ctx, pid, funcs)
   ctx.note('bug-pattern rules swept %d functions and %d classes in the data path of %s (%d obligations)' % (len(funcs), len(classes), pid, len(ctx.obs) - before))
